@@ -4,16 +4,26 @@ From Verif Require Import Base.Prelude Model.GroupMap Proofs.GMBase Proofs.Optio
 From Coq Require Import Sorting.Sorted.
 
 (* ---------- the hypotheses on a token list, bundled ----------
-   lexical: a TNamed name does not start with a digit (the scanner reads such a name as a number);
+   lexical: a TNamed name does not start with a digit (the scanner reads such a name as a number), an
+            explicit number is not negative (it is read off a digit string; canonical spelling, see tok_lex);
    small:   explicit numbers stay below [lim], and [lim] and the pattern length stay away from 2^31-1,
-            where noteCaptureSlot saturates;
+            where noteCaptureSlot saturates.
+   These two make [ts_ok_unguarded].  [ts_ok] adds the
    guard:   with MaintainCaptureOrder (outside ECMAScript, where "(?<2>" is an error) no explicit
-            numbers — the known finding mco_digit_names. *)
+            numbers — the known finding mco_digit_names.  Since /repo 2b27550 only the statements about
+            the NAME of an unnamed group need it (wf_tree's name list, hence the name <-> number round trips). *)
+Definition ts_ok_unguarded (lim : Z) (ts : list gtok) : Prop :=
+  Forall tok_lex ts /\ Forall (tok_small lim) ts /\ lim <= maxint32
+  /\ Z.max lim (1 + Z.of_nat (length ts)) + Z.of_nat (length ts) + 1 < maxint32.
+
 Definition ts_ok (lim : Z) (mco ecma : bool) (ts : list gtok) : Prop :=
   Forall tok_lex ts /\ Forall (tok_small lim) ts
   /\ (mco = true -> ecma = false -> Forall tok_unnumbered ts)
   /\ lim <= maxint32
   /\ Z.max lim (1 + Z.of_nat (length ts)) + Z.of_nat (length ts) + 1 < maxint32.
+
+Lemma ts_ok_weaken : forall lim mco ecma ts, ts_ok lim mco ecma ts -> ts_ok_unguarded lim ts.
+Proof. intros lim mco ecma ts [H1 [H2 [_ [H3 H4]]]]. repeat split; assumption. Qed.
 
 (* ---------- at most one new name per token ---------- *)
 
@@ -72,16 +82,42 @@ Proof.
   unfold prescan in H.
   destruct (prun mco ecma (p_init o) ts) as [[st mks']| | |] eqn:Ep; try discriminate. cbn [bind] in H.
   pose proof (prun_len _ _ _ _ _ _ Ep) as Hnl. cbn in Hnl.
-  destruct (prun_inv lim Hlim mco ecma ts (p_init o) st mks' (pinv_init lim mco) Hlex Hsmall Hun ltac:(cbn [p_init p_c c_init c_autocap]; lia) Ep)
+  destruct (prun_inv lim Hlim mco ecma ts (p_init o) st mks' (pinv_init lim mco) Hlex Hsmall ltac:(cbn [p_init p_c c_init c_autocap]; lia) Ep)
     as [Hinv [Hauto [_ [_ Hmk]]]].
   cbn [p_init p_c c_init c_autocap] in Hauto.
   destruct mco.
   - destruct (assign_ordered ecma (p_c st)) as [t'| | |] eqn:Ea; try discriminate. cbn [bind] in H.
     injection H as <- <-. split; [|assumption].
-    apply (assign_ordered_wf lim ecma (p_c st) t' Hinv Ea).
+    pose proof (prun_lexnames true ecma ts (p_init o) st mks' Hlex Hun ltac:(cbn; constructor) Ep) as Hln.
+    apply (assign_ordered_wf lim ecma (p_c st) t' Hinv Hln Ea).
   - destruct (assign_default (p_c st)) as [t'| | |] eqn:Ea; try discriminate. cbn [bind] in H.
     injection H as <- <-. split; [|assumption].
     assert (ecma = false) by (destruct ecma; [specialize (Hem eq_refl); discriminate|reflexivity]). subst ecma.
+    apply (assign_default_wf lim (p_c st) t' Hinv); [|assumption].
+    pose proof (pi_topb _ _ _ Hinv). lia.
+Qed.
+
+(* without the guard: the numbers are well formed, every group has its entry in the name list, and that
+   entry is a key of Capnames ([wf_weak]: it need not lead back to the group when it is a numeral) *)
+Theorem prescan_wf_weak : forall lim mco ecma o ts t mks,
+  (ecma = true -> mco = true) -> ts_ok_unguarded lim ts ->
+  prescan mco ecma o ts = Ok (t, mks) -> wf_weak ecma t /\ length mks = length ts.
+Proof.
+  intros lim mco ecma o ts t mks Hem [Hlex [Hsmall [Hlim Hb]]] H.
+  unfold prescan in H.
+  destruct (prun mco ecma (p_init o) ts) as [[st mks']| | |] eqn:Ep; try discriminate. cbn [bind] in H.
+  pose proof (prun_len _ _ _ _ _ _ Ep) as Hnl. cbn in Hnl.
+  destruct (prun_inv lim Hlim mco ecma ts (p_init o) st mks' (pinv_init lim mco) Hlex Hsmall ltac:(cbn [p_init p_c c_init c_autocap]; lia) Ep)
+    as [Hinv [Hauto [_ [_ Hmk]]]].
+  cbn [p_init p_c c_init c_autocap] in Hauto.
+  destruct mco.
+  - destruct (assign_ordered ecma (p_c st)) as [t'| | |] eqn:Ea; try discriminate. cbn [bind] in H.
+    injection H as <- <-. split; [|assumption].
+    apply (assign_ordered_weak lim ecma (p_c st) t' Hinv Ea).
+  - destruct (assign_default (p_c st)) as [t'| | |] eqn:Ea; try discriminate. cbn [bind] in H.
+    injection H as <- <-. split; [|assumption].
+    assert (ecma = false) by (destruct ecma; [specialize (Hem eq_refl); discriminate|reflexivity]). subst ecma.
+    apply wf_tree_weak.
     apply (assign_default_wf lim (p_c st) t' Hinv); [|assumption].
     pose proof (pi_topb _ _ _ Hinv). lia.
 Qed.
@@ -113,10 +149,39 @@ Proof.
   exists m. split; [reflexivity|]. apply amem_aget in H. destruct H as [v Hv]. now rewrite (aget0_some _ _ _ Hv).
 Qed.
 
+(* a group filed under a NAME: "(?<s>", and under MaintainCaptureOrder also "(?<2>" with s = "2" *)
+Lemma sim_named : forall lim mco ecma t s c c' a,
+  lim <= maxint32 -> a = c_autocap c ->
+  pinv lim mco c -> name_ok mco s -> c_autocap c < maxint32 ->
+  note_name mco ecma s c = Ok c' ->
+  is_name t s = true ->
+  (mco = true -> forall v, aget s (names_of c') = Some v -> exists m, t_capnames t = Some m /\ aget s m = Some v) ->
+  forall o' cur gs,
+  sim (mkP o' false c') (mkM o' false (cur :: gs) false (consume_slot mco (slot_from_name t s) a))
+  /\ agrees t (PName s) (ICapture (slot_from_name t s)).
+Proof.
+  intros lim mco ecma t s c c' a Hlim Sa Hinv Hok Hlt En Hn Hfin o' cur gs.
+  destruct (is_name_get t s Hn) as [m [Hm1 Hm2]].
+  destruct (note_name_inv lim mco ecma s c c' Hinv Hok Hlt En) as [_ [_ [_ [[v Hv] [Hpers [Hnew [Hold Hdef]]]]]]].
+  split.
+  - repeat split; cbn [m_o m_ign m_autocap p_o p_ign p_c]; auto.
+    unfold consume_slot. rewrite Sa. destruct mco; cbn [andb].
+    + destruct (Hfin eq_refl v Hv) as [m2 [Hm3 Hm4]]. rewrite Hm1 in Hm3. injection Hm3 as <-.
+      rewrite Hm2 in Hm4. injection Hm4 as Hk. rewrite Hk.
+      destruct (aget s (names_of c)) as [v0|] eqn:Eg.
+      * rewrite (Hold eq_refl ltac:(congruence)).
+        pose proof (Hpers eq_refl s v0 Eg) as Hp2. rewrite Hv in Hp2. injection Hp2 as ->.
+        destruct (pi_mco _ _ _ Hinv eq_refl) as [_ [_ Hslots]]. specialize (Hslots _ _ Eg).
+        destruct (v0 =? c_autocap c) eqn:E; [apply Z.eqb_eq in E; lia|reflexivity].
+      * destruct (Hnew eq_refl eq_refl) as [Hv2 Ha2]. rewrite Hv in Hv2. injection Hv2 as ->.
+        rewrite Z.eqb_refl. now rewrite Ha2.
+    + destruct (Hdef eq_refl) as [-> _]. reflexivity.
+  - cbn. exists (slot_from_name t s). split; [reflexivity|]. eauto.
+Qed.
+
 Lemma sim_step : forall lim mco ecma t ps ms tok ps' mk ms' it,
   lim <= maxint32 ->
   sim ps ms -> pinv lim mco (p_c ps) -> tok_lex tok -> tok_small lim tok ->
-  (mco = true -> ecma = false -> tok_unnumbered tok) ->
   c_autocap (p_c ps) < maxint32 ->
   (forall k, is_slot t k = true -> 0 <= k) ->
   (mco = true -> forall s v, aget s (names_of (p_c ps')) = Some v -> exists m, t_capnames t = Some m /\ aget s m = Some v) ->
@@ -124,7 +189,7 @@ Lemma sim_step : forall lim mco ecma t ps ms tok ps' mk ms' it,
   mstep mco ecma t ms tok = Ok (ms', it) ->
   sim ps' ms' /\ agrees t mk it.
 Proof.
-  intros lim mco ecma t ps ms tok ps' mk ms' it Hlim [So [Si Sa]] Hinv Hlex Hsmall Hun Hlt Hneg Hfin Hp Hm.
+  intros lim mco ecma t ps ms tok ps' mk ms' it Hlim [So [Si Sa]] Hinv Hlex Hsmall Hlt Hneg Hfin Hp Hm.
   unfold pstep in Hp. unfold mstep in Hm. rewrite So in Hm.
   destruct (ostep_prescan_ok (p_o ps) tok) as [o' Ho]. rewrite Ho in Hp. cbn [bind] in Hp.
   destruct (o_skip (p_o ps)) eqn:Hskip.
@@ -157,33 +222,35 @@ Proof.
     destruct (ostep MainPass (p_o ps) (TNamed s)) as [o2| | |] eqn:Eo; try discriminate. cbn [bind] in Hm.
     rewrite (Hmo _ eq_refl) in Hm.
     destruct (is_name t s) eqn:Hn; [|discriminate]. injection Hm as <- <-.
-    destruct (is_name_get t s Hn) as [m [Hm1 Hm2]].
-    destruct (note_name_inv lim mco ecma s (p_c ps) c' Hinv Hlex Hlt En) as [_ [_ [_ [[v Hv] [Hpers [Hnew [Hold Hdef]]]]]]].
-    split.
-    + repeat split; cbn [m_o m_ign m_autocap p_o p_ign p_c gopen]; auto.
-      unfold consume_slot. rewrite Sa. destruct mco; cbn [andb].
-      * destruct (Hfin eq_refl s v Hv) as [m2 [Hm3 Hm4]]. rewrite Hm1 in Hm3. injection Hm3 as <-.
-        rewrite Hm2 in Hm4. injection Hm4 as Hk. rewrite Hk.
-        destruct (aget s (names_of (p_c ps))) as [v0|] eqn:Eg.
-        -- rewrite (Hold eq_refl ltac:(congruence)).
-           pose proof (Hpers eq_refl s v0 Eg) as Hp2. rewrite Hv in Hp2. injection Hp2 as ->.
-           destruct (pi_mco _ _ _ Hinv eq_refl) as [_ [_ Hslots]]. specialize (Hslots _ _ Eg).
-           destruct (v0 =? c_autocap (p_c ps)) eqn:E; [apply Z.eqb_eq in E; lia|reflexivity].
-        -- destruct (Hnew eq_refl eq_refl) as [Hv2 Ha2]. rewrite Hv in Hv2. injection Hv2 as ->.
-           rewrite Z.eqb_refl. now rewrite Ha2.
-      * destruct (Hdef eq_refl) as [-> _]. reflexivity.
-    + cbn. exists (slot_from_name t s). split; [reflexivity|]. eauto.
+    apply (sim_named lim mco ecma t s (p_c ps) c' (m_autocap ms) Hlim Sa Hinv (name_ok_lex mco s Hlex) Hlt En Hn).
+    intros Hmco v Hv. apply (Hfin Hmco). exact Hv.
   - (* TNumbered *)
     rewrite Si in Hm. destruct (p_ign ps) eqn:Ei; [discriminate|].
     destruct ecma; [discriminate|].
     destruct (ostep MainPass (p_o ps) (TNumbered n)) as [o2| | |] eqn:Eo; try discriminate. cbn [bind] in Hm.
     rewrite (Hmo _ eq_refl) in Hm.
+    destruct mco.
+    { (* numbers kept in pattern order: the digits are a NAME, in both passes *)
+      cbn [andb] in Hm. cbn in Hlex.
+      destruct (n =? 0) eqn:E0.
+      - (* "(?<0>": rejected *)
+        apply Z.eqb_eq in E0. subst n. cbn [negb] in Hm.
+        destruct (is_slot t 0); discriminate.
+      - cbn [negb] in Hm. apply Z.eqb_neq in E0.
+        destruct (n <=? 0) eqn:E1; [apply Z.leb_le in E1; lia|]. apply Z.leb_gt in E1.
+        destruct (maxint32 <? n); [discriminate|].
+        destruct (note_name true false (itoa n) (p_c ps)) as [c'| | |] eqn:En; try discriminate. cbn [bind] in Hp.
+        injection Hp as <- <-.
+        destruct (is_name t (itoa n)) eqn:Hn; [|discriminate]. injection Hm as <- <-.
+        assert (Hok : name_ok true (itoa n)) by (right; split; [reflexivity|exists n; split; [lia|reflexivity]]).
+        apply (sim_named lim true false t (itoa n) (p_c ps) c' (m_autocap ms) Hlim Sa Hinv Hok Hlt En Hn).
+        intros Hmco v Hv. apply (Hfin Hmco). exact Hv. }
+    cbn [andb] in Hm.
     destruct (is_slot t n) eqn:Hs; [|discriminate].
     destruct (n =? 0) eqn:E0; [discriminate|]. injection Hm as <- <-.
     apply Z.eqb_neq in E0. specialize (Hneg _ Hs).
     destruct (n <=? 0) eqn:E1; [apply Z.leb_le in E1; lia|].
     destruct (maxint32 <? n); [discriminate|].
-    destruct mco; [exfalso; apply (Hun eq_refl eq_refl)|].
     injection Hp as <- <-.
     destruct (note_slot_fields n (p_c ps)) as [Fa _].
     split; [|reflexivity]. repeat split; cbn [m_o m_ign m_autocap p_o p_ign p_c gopen consume_slot andb]; auto.
@@ -259,7 +326,6 @@ Qed.
 Lemma sim_run : forall lim mco ecma t ts ps ms ps' mks ms' its,
   lim <= maxint32 -> sim ps ms -> pinv lim mco (p_c ps) ->
   Forall tok_lex ts -> Forall (tok_small lim) ts ->
-  (mco = true -> ecma = false -> Forall tok_unnumbered ts) ->
   c_autocap (p_c ps) + Z.of_nat (length ts) < maxint32 ->
   (forall k, is_slot t k = true -> 0 <= k) ->
   (mco = true -> forall s v, aget s (names_of (p_c ps')) = Some v -> exists m, t_capnames t = Some m /\ aget s m = Some v) ->
@@ -268,7 +334,7 @@ Lemma sim_run : forall lim mco ecma t ts ps ms ps' mks ms' its,
   Forall2 (agrees t) mks its /\ sim ps' ms'.
 Proof.
   intros lim mco ecma t ts. induction ts as [|tok ts IH];
-    intros ps ms ps' mks ms' its Hlim Hsim Hinv Hlex Hsmall Hun Hlt Hneg Hfin Hp Hm.
+    intros ps ms ps' mks ms' its Hlim Hsim Hinv Hlex Hsmall Hlt Hneg Hfin Hp Hm.
   - cbn in Hp, Hm. injection Hp as <- <-. injection Hm as <- <-. split; [constructor|assumption].
   - cbn [prun] in Hp. cbn [mrun] in Hm.
     destruct (pstep mco ecma ps tok) as [[ps1 mk]| | |] eqn:E1; try discriminate. cbn [bind] in Hp.
@@ -279,32 +345,28 @@ Proof.
     injection Hm as <- <-.
     inversion Hlex as [|? ? Hl1 Hl2]; subst. inversion Hsmall as [|? ? Hs1 Hs2]; subst.
     cbn [length] in Hlt.
-    assert (Hu1 : mco = true -> ecma = false -> tok_unnumbered tok).
-    { intros A B. specialize (Hun A B). now inversion Hun. }
-    assert (Hu2 : mco = true -> ecma = false -> Forall tok_unnumbered ts).
-    { intros A B. specialize (Hun A B). now inversion Hun. }
-    destruct (pstep_inv lim Hlim mco ecma ps tok ps1 mk Hinv Hl1 Hs1 Hu1 ltac:(lia) E1) as [P1 [P2 _]].
-    destruct (prun_inv lim Hlim mco ecma ts ps1 ps2 mks2 P1 Hl2 Hs2 Hu2 ltac:(lia) E2) as [_ [_ [_ [Q4 _]]]].
-    destruct (sim_step lim mco ecma t ps ms tok ps1 mk ms1 it Hlim Hsim Hinv Hl1 Hs1 Hu1 ltac:(lia) Hneg) as [S1 A1]; try assumption.
+    destruct (pstep_inv lim Hlim mco ecma ps tok ps1 mk Hinv Hl1 Hs1 ltac:(lia) E1) as [P1 [P2 _]].
+    destruct (prun_inv lim Hlim mco ecma ts ps1 ps2 mks2 P1 Hl2 Hs2 ltac:(lia) E2) as [_ [_ [_ [Q4 _]]]].
+    destruct (sim_step lim mco ecma t ps ms tok ps1 mk ms1 it Hlim Hsim Hinv Hl1 Hs1 ltac:(lia) Hneg) as [S1 A1]; try assumption.
     { intros Hmco s v Hv. apply (Hfin Hmco). now apply Q4. }
-    destruct (IH ps1 ms1 ps2 mks2 ms2 its2 Hlim S1 P1 Hl2 Hs2 Hu2 ltac:(lia) Hneg Hfin E2 F2) as [A2 S2].
+    destruct (IH ps1 ms1 ps2 mks2 ms2 its2 Hlim S1 P1 Hl2 Hs2 ltac:(lia) Hneg Hfin E2 F2) as [A2 S2].
     split; [constructor; assumption|assumption].
 Qed.
 
 (* prescan_agrees_with_parse: token by token, the main pass captures exactly where the pre-scan
    reserved a number, and with that number *)
 Theorem prescan_agrees : forall lim mco ecma o ts t mks ms its,
-  (ecma = true -> mco = true) -> ts_ok lim mco ecma ts ->
+  (ecma = true -> mco = true) -> ts_ok_unguarded lim ts ->
   prescan mco ecma o ts = Ok (t, mks) ->
   mrun mco ecma t (m_init o) ts = Ok (ms, its) ->
   Forall2 (agrees t) mks its.
 Proof.
   intros lim mco ecma o ts t mks ms its Hem Hok Hpre Hm.
-  destruct (prescan_wf lim mco ecma o ts t mks Hem Hok Hpre) as [WF _].
-  destruct Hok as [Hlex [Hsmall [Hun [Hlim Hb]]]].
+  destruct (prescan_wf_weak lim mco ecma o ts t mks Hem Hok Hpre) as [[WF _] _].
+  destruct Hok as [Hlex [Hsmall [Hlim Hb]]].
   unfold prescan in Hpre.
   destruct (prun mco ecma (p_init o) ts) as [[st mks']| | |] eqn:Ep; try discriminate. cbn [bind] in Hpre.
-  destruct (prun_inv lim Hlim mco ecma ts (p_init o) st mks' (pinv_init lim mco) Hlex Hsmall Hun
+  destruct (prun_inv lim Hlim mco ecma ts (p_init o) st mks' (pinv_init lim mco) Hlex Hsmall
               ltac:(cbn [p_init p_c c_init c_autocap]; lia) Ep) as [Hinv _].
   assert (Hneg : forall k, is_slot t k = true -> 0 <= k).
   { intros k Hk. unfold is_slot in Hk. apply zmem_In in Hk. eapply caps_nonneg; eauto. }
@@ -313,7 +375,7 @@ Proof.
   { intros -> s v Hv.
     destruct (assign_ordered ecma (p_c st)) as [t'| | |] eqn:Ea; try discriminate. cbn [bind] in Hpre.
     injection Hpre as <- <-.
-    destruct (assign_ordered_wf lim ecma (p_c st) t' Hinv Ea) as [_ [_ H3]].
+    destruct (assign_ordered_weak lim ecma (p_c st) t' Hinv Ea) as [_ [_ H3]].
     destruct (H3 s v Hv) as [m [Hm1 Hm2]]. eauto. }
   assert (Hmks : mks' = mks).
   { destruct (if mco then assign_ordered ecma (p_c st) else assign_default (p_c st)); try discriminate.
@@ -328,14 +390,14 @@ Qed.
 
 (* every number held by Capnames is a group number *)
 Theorem prescan_vals : forall lim mco ecma o ts t mks,
-  (ecma = true -> mco = true) -> ts_ok lim mco ecma ts ->
+  (ecma = true -> mco = true) -> ts_ok_unguarded lim ts ->
   prescan mco ecma o ts = Ok (t, mks) -> vals_ok t.
 Proof.
-  intros lim mco ecma o ts t mks Hem [Hlex [Hsmall [Hun [Hlim Hb]]]] H.
+  intros lim mco ecma o ts t mks Hem [Hlex [Hsmall [Hlim Hb]]] H.
   unfold prescan in H.
   destruct (prun mco ecma (p_init o) ts) as [[st mks']| | |] eqn:Ep; try discriminate. cbn [bind] in H.
   pose proof (prun_len _ _ _ _ _ _ Ep) as Hnl. cbn in Hnl.
-  destruct (prun_inv lim Hlim mco ecma ts (p_init o) st mks' (pinv_init lim mco) Hlex Hsmall Hun
+  destruct (prun_inv lim Hlim mco ecma ts (p_init o) st mks' (pinv_init lim mco) Hlex Hsmall
               ltac:(cbn [p_init p_c c_init c_autocap]; lia) Ep) as [Hinv [Hauto _]].
   cbn [p_init p_c c_init c_autocap] in Hauto.
   destruct mco.
